@@ -345,6 +345,8 @@ DEFAULT_PROFILE = dict(
     p_ts_bytes_default=0.0,     # K16: emitted as str, refused by the runtime
     p_multi_pos_custom=0.0,     # K8
     p_three_part_field_ref=0.0,  # K22 (swift/objc _docf)
+    p_alias_of_alias=0.0,        # alias whose target is another alias
+    p_ts_offset_format=0.0,      # Timestamp formats with %z (timezone-aware values)
     p_keyword_doc=0.0,           # doc lines beginning with a language keyword
     p_marker_chain=0.0,          # struct <- field-less struct <- struct chains
     p_tag_named_like_member_field=0.0,  # union tag named after a field of its struct member type
@@ -503,6 +505,9 @@ class Gen:
             return prim('Boolean')
         if k == 'bytes':
             return prim('Bytes')
+        if self.p['p_ts_offset_format'] and r.random() < self.p['p_ts_offset_format']:
+            # a format carrying the UTC offset: values are timezone-aware datetimes
+            return prim('Timestamp', format=r.choice(['%Y-%m-%dT%H:%M:%S%z', '%Y%m%d %H%M%S %z']))
         return prim('Timestamp', format=r.choice(TS_FORMATS))
 
     def visible_namespaces(self, ns):
@@ -609,6 +614,8 @@ class Gen:
         fmt = t.args['format']
         if fmt == '%Y-%m-%d':
             dt = dt.replace(hour=0, minute=0, second=0)
+        if '%z' in fmt:
+            dt = dt.replace(tzinfo=datetime.timezone.utc)
         return dt.strftime(fmt)
 
     def literal_for(self, t):
@@ -952,6 +959,12 @@ class Gen:
     def gen_alias(self, ns):
         r = self.rnd
         t = self.type_expr(ns)
+        if self.p['p_alias_of_alias'] and r.random() < self.p['p_alias_of_alias']:
+            # an alias of an alias (chains, also across namespaces and ending in user types)
+            cands = self.user_types(ns, ('alias',))
+            if cands:
+                d0 = r.choice(cands)
+                t = ref(d0.ns, d0.name)
         anns = []
         if self.chance('p_field_ann'):
             for a in self.visible_anns(ns):
